@@ -5,6 +5,11 @@
 import Desync.Model.IndexCodec
 import Desync.Model.Chunker
 import Desync.Model.Goodbye
+import Desync.Model.Archive
+import Desync.Model.Mode
+import Desync.Model.Protocol
+import Desync.Model.VerifyIndex
+import Desync.Hash.Sha2
 
 namespace Driver
 open Desync
@@ -99,6 +104,141 @@ def cmdBst (a : Args) : String :=
   | none => "panic"
   | some as => String.intercalate "," ((placeAll n as).toList.map toString)
 
+def u (x : UInt64) : String := toString x.toNat
+
+def elemStr : Elem → String
+  | .entry sz ff mode fl uid gid mt =>
+    let fm := Mode.statToFilemode (UInt32.ofNat (mode.toNat % 4294967296))
+    s!"entry:{u sz}:{u ff}:{fm.toNat}:{u fl}:{u uid}:{u gid}:{u mt}"
+  | .user sz n => s!"user:{u sz}:{toHex n}"
+  | .group sz n => s!"group:{u sz}:{toHex n}"
+  | .xattr sz n => s!"xattr:{u sz}:{toHex n}"
+  | .selinux sz n => s!"selinux:{u sz}:{toHex n}"
+  | .filename sz n => s!"filename:{u sz}:{toHex n}"
+  | .symlink sz n => s!"symlink:{u sz}:{toHex n}"
+  | .device sz ma mi => s!"device:{u sz}:{u ma}:{u mi}"
+  | .payload sz => s!"payload:{u sz}"
+  | .fcaps sz d => s!"fcaps:{u sz}:{toHex d}"
+  | .aclUser sz uid perm n => s!"acluser:{u sz}:{u uid}:{u perm}:{toHex n}"
+  | .aclGroup sz gid perm n => s!"aclgroup:{u sz}:{u gid}:{u perm}:{toHex n}"
+  | .aclGroupObj sz p => s!"aclgroupobj:{u sz}:{u p}"
+  | .aclDefault sz a b c d => s!"acldefault:{u sz}:{u a}:{u b}:{u c}:{u d}"
+  | .goodbye sz items => s!"goodbye:{u sz}:" ++ String.intercalate "," (items.map fun i => s!"{u i.offset}/{u i.size}/{u i.hash}")
+  | .index sz ff mn av mx => s!"index:{u sz}:{u ff}:{u mn}:{u av}:{u mx}"
+  | .table sz items => s!"table:{u sz}:" ++ String.intercalate "," (items.map fun i => s!"{u i.offset}/{toHex i.id}")
+
+/-- `fmt.next bytes=` : one call of `FormatDecoder.Next` -/
+def cmdFmtNext (a : Args) : String :=
+  match a.bytes "bytes" with
+  | none => "bad-op"
+  | some b =>
+    match decNext { rest := b } with
+    | .ok (none, _) => "ok end"
+    | .ok (some e, s) => s!"ok {elemStr e} rest={s.rest.length} alloc={s.alloc}"
+    | .err e => "err " ++ e.name
+    | .panic _ => "panic"
+
+def sortXattrs (xs : List (Bytes × Bytes)) : List (Bytes × Bytes) :=
+  (xs.toArray.qsort (fun a b => toHex a.1 < toHex b.1)).toList
+
+def xattrsStr (xs : List (Bytes × Bytes)) : String :=
+  String.intercalate "|" ((sortXattrs xs).map fun (k, v) => toHex k ++ "=" ++ toHex v)
+
+def metaStr (m : Meta) : String :=
+  let fm := Mode.statToFilemode (UInt32.ofNat (m.mode.toNat % 4294967296))
+  s!"{u m.uid}:{u m.gid}:{fm.toNat}:{u m.mtime}:{xattrsStr m.xattrs}"
+
+def nodeStr : Node → String
+  | .dir n m => s!"D:{toHex n}:{metaStr m}"
+  | .file n m sz d => s!"F:{toHex n}:{metaStr m}:{u sz}:{toHex d}"
+  | .device n m ma mi => s!"V:{toHex n}:{metaStr m}:{u ma}:{u mi}"
+  | .symlink n m t => s!"L:{toHex n}:{metaStr m}:{toHex t}"
+
+/-- `arch.untar bytes=` : the node sequence `UnTar` hands to the filesystem writer -/
+def cmdUntar (a : Args) : String :=
+  match a.bytes "bytes" with
+  | none => "bad-op"
+  | some b => resStr (fun ns => String.intercalate ";" (ns.map nodeStr)) (untar b)
+
+def parseXattrs (s : String) : Option (List (Bytes × Bytes)) :=
+  if s.isEmpty then some [] else
+  (s.splitOn "|").mapM fun kv =>
+    match kv.splitOn "=" with
+    | [k, v] => do let k ← ofHex k; let v ← ofHex v; pure (k, v)
+    | _ => none
+
+def parseKind : String → Kind
+  | "dir" => .dir | "reg" => .reg | "symlink" => .symlink | "device" => .device | _ => .other
+
+/-- one record: base,path,parent,kind,mode,uid,gid,mtime,size,data,target,major,minor,xattrs -/
+def parseRec (s : String) : Option FileRec :=
+  match s.splitOn "," with
+  | [base, path, parent, kind, mode, uid, gid, mtime, size, data, target, major, minor, xattrs] => do
+    let base ← ofHex base
+    let path ← ofHex path
+    let parent ← ofHex parent
+    let data ← ofHex data
+    let target ← ofHex target
+    let xs ← parseXattrs xattrs
+    let n (x : String) : UInt64 := UInt64.ofNat (x.toNat?.getD 0)
+    pure { base, path, parent, kind := parseKind kind, mode := n mode, uid := n uid, gid := n gid,
+           mtime := n mtime, size := n size, data, target, major := n major, minor := n minor, xattrs := xs }
+  | _ => none
+
+/-- `arch.tar recs=r1;r2;…` : the archive bytes `Tar` writes for a record stream -/
+def cmdTar (a : Args) : String :=
+  match ((a.get "recs").splitOn ";").mapM parseRec with
+  | none => "bad-op"
+  | some recs =>
+    match tarStream recs with
+    | none => "err"
+    | some b => toHex b
+
+def cmdMode (which : String) (a : Args) : String :=
+  match which with
+  | "s2f" => toString (Mode.statToFilemode (UInt32.ofNat (a.nat "m"))).toNat
+  | "f2s" => toString (Mode.filemodeToStat (UInt32.ofNat (a.nat "m"))).toNat
+  | "mkdev" => u (Mode.mkdev (a.u64 "ma") (a.u64 "mi"))
+  | _ => s!"{u (Mode.rdevMajor (a.u64 "r"))}:{u (Mode.rdevMinor (a.u64 "r"))}"
+
+/-- `proto.read bytes=` : `Protocol.ReadMessage` -/
+def cmdProtoRead (a : Args) : String :=
+  match a.bytes "bytes" with
+  | none => "bad-op"
+  | some b =>
+    match readMessage { rest := b } with
+    | .ok (m, s) => s!"ok {u m.typ}:{toHex m.body} rest={s.rest.length} alloc={s.alloc}"
+    | .err e => "err " ++ e.name
+    | .panic _ => "panic"
+
+def digestOf (alg : String) : Digest :=
+  if alg == "sha256" then Sha2.sha256 else Sha2.sha512_256
+
+/-- `start:size:idhex,…` with explicit starts -/
+def parseChunksAbs (s : String) : Option (List IndexChunk) :=
+  if s.isEmpty then some [] else
+  (s.splitOn ",").mapM fun p =>
+    match p.splitOn ":" with
+    | [st, sz, id] => do
+      let st ← st.toNat?
+      let sz ← sz.toNat?
+      let id ← ofHex id
+      pure ⟨id, UInt64.ofNat st, UInt64.ofNat sz⟩
+    | _ => none
+
+def cmdHash (a : Args) : String :=
+  match a.bytes "data" with
+  | none => "bad-op"
+  | some d => toHex (digestOf (a.get "alg") d)
+
+/-- `verify.index alg= n= dev= chunks= file=` : `VerifyIndex` -/
+def cmdVerifyIndex (a : Args) : String :=
+  match parseChunksAbs (a.get "chunks"), a.bytes "file" with
+  | some cs, some file =>
+    match verifyIndex (digestOf (a.get "alg")) file (a.bool "dev") ⟨0, 0, 0, 0, cs⟩ (a.nat "n") with
+    | .ok => "ok" | .mismatch => "mismatch" | .sizeMismatch => "size" | .panic => "panic"
+  | _, _ => "bad-op"
+
 def runLine (l : String) : String :=
   match l.splitOn " " with
   | [] => "bad-op"
@@ -108,6 +248,16 @@ def runLine (l : String) : String :=
     | "idx.decode" => cmdIdxDecode a
     | "idx.encode" => cmdIdxEncode a
     | "chunk.all" => cmdChunkAll a
+    | "hash" => cmdHash a
+    | "verify.index" => cmdVerifyIndex a
+    | "fmt.next" => cmdFmtNext a
+    | "arch.untar" => cmdUntar a
+    | "arch.tar" => cmdTar a
+    | "mode.s2f" => cmdMode "s2f" a
+    | "mode.f2s" => cmdMode "f2s" a
+    | "mode.mkdev" => cmdMode "mkdev" a
+    | "mode.rdev" => cmdMode "rdev" a
+    | "proto.read" => cmdProtoRead a
     | "chunk.buffered" => cmdChunkBuffered a
     | "chunk.disc" => cmdChunkDisc a
     | "sip" => cmdSip a
